@@ -273,7 +273,8 @@ pub fn run<T: Target>(sc: &Scenario, stats: &mut Stats) {
                 if matches!(o.cls, "overflow" | "io_err" | "other") {
                     dead = true;
                 }
-                let is_eof = o.cls == "eof";
+                // the end of the stream, not the error result of a blank frame (same error variant)
+                let is_eof = o.cls == "eof" && wire.borrow().eof_reported;
                 ev(json!({"ev":"recv","cls":o.cls,"canon":o.canon,"blen":blen,"rp":rp,"mp":mp}));
                 if drained {
                     drain_results += 1;
@@ -375,6 +376,15 @@ pub fn gen_frame(r: &mut Rng, target: &str, want: usize) -> Vec<u8> {
         },
         // raw non-UTF-8 / control bytes handled below
         2 => valid.clone(),
+        // a frame that holds nothing but JSON whitespace: no document, one error result of its own
+        4 => match r.below(6) {
+            0 => " ".into(),
+            1 => "\r\n".into(),
+            2 => "\t".into(),
+            3 => " ".repeat(want.max(1)),
+            4 => "\n \t\r ".into(),
+            _ => r.pick(&WS).to_string(),
+        },
         // error-ish frames for reply targets (also fine as wrong-shape calls)
         3 => match r.below(6) {
             0 => "{\"error\":\"io.systemd.System\"}".into(),
@@ -387,10 +397,10 @@ pub fn gen_frame(r: &mut Rng, target: &str, want: usize) -> Vec<u8> {
         _ => valid.clone(),
     };
     // whitespace padding around the document (insignificant whitespace)
-    if r.chance(1, 4) {
+    if kind != 4 && r.chance(1, 4) {
         body = format!("{}{}", r.pick(&WS), body);
     }
-    if r.chance(1, 4) {
+    if kind != 4 && r.chance(1, 4) {
         body = format!("{}{}", body, r.pick(&WS));
     }
     let mut b = body.into_bytes();
@@ -458,6 +468,37 @@ pub fn gen_steps(r: &mut Rng, total: usize, nframes: usize, cancels: bool) -> Ve
     steps
 }
 
+/// Reads that end exactly behind a frame's terminator: groups of 1..3 whole frames per read, a poll
+/// (sometimes two, sometimes a cancel) after each group, now and then one group split once more inside.
+pub fn gen_steps_aligned(r: &mut Rng, lens: &[usize], cancels: bool) -> Vec<Step> {
+    let mut steps = Vec::new();
+    let mut i = 0;
+    while i < lens.len() {
+        let g = (r.range(1, 3)).min(lens.len() - i);
+        let n: usize = lens[i..i + g].iter().sum();
+        if r.chance(1, 5) && n > 1 {
+            let c = r.range(1, n - 1);
+            steps.push(Step::Feed(c));
+            steps.push(Step::Poll);
+            if cancels && r.chance(1, 3) {
+                steps.push(Step::Cancel);
+            }
+            steps.push(Step::Feed(n - c));
+        } else {
+            if r.chance(1, 4) {
+                steps.push(Step::Suspend);
+            }
+            steps.push(Step::Feed(n));
+        }
+        steps.push(Step::Poll);
+        if r.chance(1, 3) {
+            steps.push(Step::Poll);
+        }
+        i += g;
+    }
+    steps
+}
+
 pub fn gen_scenario(r: &mut Rng, sid: String, cancels: bool, valid_only: bool) -> Scenario {
     let target = r.pick(&TARGET_NAMES).to_string();
     let step = crate::buffer_step();
@@ -483,7 +524,12 @@ pub fn gen_scenario(r: &mut Rng, sid: String, cancels: bool, valid_only: bool) -
         frames.push(f);
     }
     let total: usize = frames.iter().map(|f| f.len() + 1).sum();
-    let steps = gen_steps(r, total, nf, cancels);
+    let steps = if r.chance(1, 5) {
+        let lens: Vec<usize> = frames.iter().map(|f| f.len() + 1).collect();
+        gen_steps_aligned(r, &lens, cancels)
+    } else {
+        gen_steps(r, total, nf, cancels)
+    };
     Scenario {
         sid,
         target,
@@ -555,6 +601,9 @@ pub fn concretise_tiny(idx: usize, lead: usize, body: usize, trail: usize, ok: b
         } else {
             format!("{{{}}}", " ".repeat(body - 2))
         }
+    } else if body == 0 {
+        assert!(lead + trail >= 1, "a blank frame still has a byte");
+        String::new()
     } else if body == 1 {
         "x".to_string()
     } else {
